@@ -5,7 +5,15 @@
 //	-set templates  MatchAndResolve, parseTemplatedElements, FromBytes          (GT.TmplGenPrims)
 //	-set cache      extractAndConvert, getFromCache, Get, MustGet, GetOrDefault (GT.GConfCacheGenPrims)
 //
-// together with every unexported function or method these call (helpers: gen_h_<name>, listed in
+// The package's FILE SET is taken the way the compiler takes it (harness/internal/srcset: all non-test
+// .go files of the directory matching the build context of the harness build — tag verif, Go version
+// tags); a root declared twice, or only in an excluded file, fails the translation, and so do
+// (analysis.go: wholePackageChecks) writes to the template list / the compiled pattern from any other
+// function (an init() in a sibling file), struct fields or import paths other than the ones assumed
+// (Config.cached *xsync.MapOf[cacheKey, any], ...), a Config literal without a fresh memo, a
+// WithDimension that does more than append, a FromFile that does not read the whole file.
+//
+// Translated: the roots above together with every unexported function or method these call (helpers: gen_h_<name>, listed in
 // the hint database gen_helpers so that the tie proofs unfold them whatever they are called and
 // however the code is split into helpers).
 //
@@ -47,11 +55,11 @@ import (
 	"flag"
 	"fmt"
 	"go/ast"
-	"go/parser"
 	"go/token"
 	"os"
-	"path/filepath"
 	"strings"
+
+	"gtverif/internal/srcset"
 )
 
 var sets = map[string][]string{
@@ -194,23 +202,24 @@ func main() {
 		fmt.Fprintln(os.Stderr, "unknown -set")
 		os.Exit(2)
 	}
-	fset := token.NewFileSet()
-	var files []*ast.File
-	for _, name := range []string{"builder.go", "config.go", "yaml_templates.go"} {
-		file, err := parser.ParseFile(fset, filepath.Join(*src, name), nil, 0)
-		if err != nil {
-			fmt.Fprintln(os.Stderr, err)
-			os.Exit(2)
-		}
-		files = append(files, file)
+	// the file set the compiler would use: every non-test .go file of the package that matches the
+	// build context of the harness build (tag verif, Go version tags); a root that sits in a file
+	// excluded by a build constraint is "not found", one declared twice is an error
+	sp, err := srcset.Load(*src, "verif")
+	if err != nil {
+		fmt.Fprintln(os.Stderr, err)
+		os.Exit(2)
 	}
+	files := sp.Files
 	pkg := collectPkg(files)
 	pkg.resolveRoles()
+	var problems []string
+	problems = append(problems, pkg.dups...)
+	problems = append(problems, wholePackageChecks(sp, pkg, *set)...)
 	for _, fd := range pkg.decls {
 		renameLocals(fd)
 	}
 	a := &analysis{pkg: pkg, set: *set, infos: map[string]*finfo{}}
-	var problems []string
 	var roots []string
 	for _, role := range wanted {
 		if k, ok := pkg.roleGo[role]; ok && pkg.decls[k] != nil {
@@ -260,6 +269,11 @@ func main() {
 	for _, role := range wanted {
 		if k, ok := pkg.roleGo[role]; !ok || a.infos[k] == nil {
 			b.WriteString("Definition gen_" + role + " := UNSUPPORTED_function_" + role + "_not_found.\n\n")
+		}
+	}
+	for i, p := range problems {
+		if strings.HasPrefix(p, "package: ") {
+			b.WriteString(fmt.Sprintf("Definition package_problem_%d := UNSUPPORTED_%s.\n", i, sanitize(p)))
 		}
 	}
 	b.WriteString("End Gen.\n\nCreate HintDb gen_helpers.\n")
